@@ -180,11 +180,23 @@ def gen_case(rnd, kind):
         if not prog.blobs:
             return None
 
+        aux_left, aux_right = dict(prog.aux), dict(prog.aux)
+        if rnd.random() < 0.4:
+            # the same spelling of a path in a file of another directory names another file
+            other = bytes(rnd.randrange(256) for _ in range(rnd.randrange(1, 40)))
+            prog.blobs["sub/blob9.bin"] = other
+            ins = apm.insert_file("blob9.bin")
+            ins.real = "sub/blob9.bin"
+            inc_l = [apm.simple(".even"), ins, apm.simple(".even")]
+            host = rnd.choice(prog.files)
+            host.stmts.insert(rnd.randrange(len(host.stmts) + 1), apm.include("sub/inc7.mac"))
+            aux_left["sub/inc7.mac"] = apm.SrcFile("sub/inc7.mac", inc_l)
+
         def repl(stmts):
             out = []
             for st in stmts:
                 if st.k == "insert":
-                    blob = prog.blobs[st.path]
+                    blob = prog.blobs[getattr(st, "real", None) or st.path]
                     first = True
                     for k in range(0, len(blob), 12):
                         d = apm.data(".byte", *[apm.num(b, rnd.choice([None, "d"])) for b in blob[k:k + 12]])
@@ -199,7 +211,10 @@ def gen_case(rnd, kind):
                 else:
                     out.append(st)
             return out
-        right = apm.Program([apm.SrcFile(f.name, repl(f.stmts)) for f in prog.files], prog.aux, {}, prog.charset)
+        for pth, f in aux_left.items():
+            aux_right[pth] = apm.SrcFile(f.name, repl(f.stmts))
+        right = apm.Program([apm.SrcFile(f.name, repl(f.stmts)) for f in prog.files], aux_right, {}, prog.charset)
+        prog = apm.Program(prog.files, aux_left, prog.blobs, prog.charset)
     elif kind == "end":
         right, ref, info = tight.gen_program(rnd, opts={"include": False, "insert": False})
         files = []
@@ -232,6 +247,21 @@ def gen_case(rnd, kind):
         right_stmts[p1:p1] = [apm.simple(".even"), apm.include("once7.mac"), apm.simple(".even")]
         prog = apm.Program([apm.SrcFile(f.name, left_stmts)], aux, {}, base.charset)
         right = apm.Program([apm.SrcFile(f.name, right_stmts)], aux, {}, base.charset)
+        if rnd.random() < 0.3:
+            # guarded files that include each other (or themselves): the inclusion met while the file is still being compiled is not the first
+            w = [apm.data(".word", apm.num(rnd.randrange(0x10000))) for _ in range(6)]
+            aux_l = dict(aux)
+            aux_l["cyca7.mac"] = apm.SrcFile("cyca7.mac", [apm.simple(".once"), w[0], apm.include("cycb7.mac"), w[1]])
+            aux_l["cycb7.mac"] = apm.SrcFile("cycb7.mac", [apm.simple(".once"), w[2], apm.include("cyca7.mac"), w[3]])
+            aux_l["cycs7.mac"] = apm.SrcFile("cycs7.mac", [apm.simple(".once"), w[4], apm.include("cycs7.mac"), w[5]])
+            aux_r = dict(aux)
+            aux_r["flat7.mac"] = apm.SrcFile("flat7.mac", [w[0], w[2], w[3], w[1]])
+            aux_r["flats7.mac"] = apm.SrcFile("flats7.mac", [w[4], w[5]])
+            self_too = rnd.random() < 0.5
+            tail_l = [apm.simple(".even"), apm.include("cyca7.mac"), apm.include("cycb7.mac")] + ([apm.include("cycs7.mac"), apm.include("cycs7.mac")] if self_too else [])
+            tail_r = [apm.simple(".even"), apm.include("flat7.mac")] + ([apm.include("flats7.mac")] if self_too else [])
+            prog = apm.Program([apm.SrcFile(f.name, left_stmts + tail_l)], aux_l, {}, base.charset)
+            right = apm.Program([apm.SrcFile(f.name, right_stmts + tail_r)], aux_r, {}, base.charset)
     lt, rt = refcheck.render_all(prog), refcheck.render_all(right)
     return {"kind": kind, "left": apm.to_json(prog), "right": apm.to_json(right),
             "left_text_preview": lt[prog.files[0].name].splitlines()[:10], "right_text_preview": rt[right.files[0].name].splitlines()[:10]}
